@@ -70,7 +70,7 @@ def _playback(scratch, k, test, tname):
 
 def search_counterexample(pid, v):
     if v.get('rac_counterexample'):
-        return {'kind': 'rac', 'input': v['rac_counterexample']}
+        return {'kind': 'rac', 'input': v['rac_counterexample'], 'rac': v.get('rac') or v['obligation'].split(':', 1)[1]}
     if v.get('kani'):
         return kani_counterexample(v)
     # Verus: look for a registered runtime contract check of the failing function
